@@ -168,6 +168,11 @@ def dict_method(E, recv, c, name, args, kwargs, fr, node):
             k = args[0]
             if is_conc(k) and not isinstance(k, Ref):
                 return d.get(k, args[1] if len(args) > 1 else None)
+            if len(d) <= 16 and all(is_conc(kk) and not isinstance(kk, Ref) for kk in d):
+                for kk, v in d.items():
+                    if E.fork(eq_term(E, k, kk, node, fr)):
+                        return v
+                return args[1] if len(args) > 1 else None
             raise Unsupported("symbolic key into literal dict")
         if name == "keys":
             return E.new_list(list(d.keys()))
